@@ -55,7 +55,10 @@ Definition fast_checks (m : fbamodel) (rs : list (Q * Q)) (f : fastobs) : list n
   (if Nat.eqb (length (f_keep f)) n && f_same f then [] else [6%nat]) ++
   (if forallb (fun j => existsb (fun w => Nat.eqb (fst w) j && check_witness m j (snd w)) (f_witness f)) kept
    then [] else [4%nat]) ++
-  (if forallb (truly_blocked rs) dropped then [] else [5%nat]) ++
+  (* a dropped reaction that is not blocked: code 15 when no reaction of the model is reversible (lb < 0 < ub) — there
+     the unchanged fastcc is complete (docs/C19.md) and the known finding never applies —, code 5 otherwise *)
+  (if forallb (truly_blocked rs) dropped then []
+   else if forallb (fun r => negb (eneg (rx_lb r) && epos (rx_ub r))) (rxns m) then [15%nat] else [5%nat]) ++
   (if f_result_clean f then [] else [7%nat]).
 
 Definition checks (c : c19case) : list nat :=
